@@ -130,6 +130,7 @@ func longStreamCases(prop string, r *rng.R) {
 	for _, sp := range specs {
 		runLongStream(prop, sp)
 	}
+	manyNamesFrameCase(prop)
 }
 
 // Dictionary strings of boundary lengths: whether a string enters the dictionary is a wire
@@ -281,6 +282,70 @@ func bigPlainStringCases(prop string) {
 				propFail("%s plainstr-value-changed case=%s record %d read back with a %d byte string starting %q", prop, name, i, len(ts), ts[:1])
 				break
 			}
+		}
+	}
+}
+
+// One LARGE frame (legal raised writer limits) with many records that each add a little to the
+// decoder's accounted allocations (a new metric name per record): the per-record budget must not turn
+// into a per-frame budget. The stream is also cut right after the large frame and in the middle of the
+// small frame that follows it: the reader must return exactly the records of the complete frames.
+func manyNamesFrameCase(prop string) {
+	n := 150000
+	name := "many-names-one-frame"
+	note("case %s", name)
+	cw := &chunkLog{}
+	w, err := otelstef.NewMetricsWriter(cw, pkg.WriterOptions{MaxUncompressedFrameByteSize: 48 << 20, MaxTotalDictSize: 1 << 30})
+	if err != nil {
+		propFail("%s many-names-writer %v", prop, err)
+		return
+	}
+	write := func(from, to int) bool {
+		for i := from; i < to; i++ {
+			w.Record.Metric().SetName(fmt.Sprintf("metric.name.%07d", i))
+			w.Record.Point().SetTimestamp(uint64(i))
+			if err := w.Write(); err != nil {
+				propFail("%s many-names-write record %d: %v", prop, i, err)
+				return false
+			}
+		}
+		return w.Flush() == nil
+	}
+	if !write(0, 5) || !write(5, 5+n) {
+		return
+	}
+	endBig := cw.buf.Len()
+	if !write(5+n, 10+n) {
+		return
+	}
+	stats["many-names-records"] += n + 10
+	note("nontrivial %x", uint64(n))
+	all := cw.buf.Bytes()
+	for _, cut := range []int{len(all), endBig, endBig + 7} {
+		want := 10 + n
+		if cut < len(all) {
+			want = 5 + n
+		}
+		rd, err := otelstef.NewMetricsReader(bytes.NewReader(all[:cut]))
+		if err != nil {
+			propFail("%s many-names-not-readable NewMetricsReader: %v", prop, err)
+			return
+		}
+		got := 0
+		var rerr error
+		for {
+			if rerr = rd.Read(pkg.ReadOptions{}); rerr != nil {
+				break
+			}
+			if rd.Record.Point().Timestamp() != uint64(got) {
+				propFail("%s many-names-record-changed record %d read with timestamp %d", prop, got, rd.Record.Point().Timestamp())
+				return
+			}
+			got++
+		}
+		if got != want {
+			propFail("%s complete-frames-not-returned case=%s frames of 5 / %d / 5 records (one new metric name per record; writer limits raised to a 48 MiB frame and a 1 GiB dictionary), stream cut at %d of %d bytes: the reader returned %d records and then %v; the complete frames hold %d", prop, name, n, cut, len(all), got, rerr, want)
+			return
 		}
 	}
 }
